@@ -24,7 +24,8 @@ Hosts   == {"reg", "regUp", "sub.reg", "evil", "localhost", "127.0.0.1", "::1", 
 Ports   == IF Tier = "quick" THEN {"", "p2"} ELSE {"", "p1", "p2"}
 \* "/cb_q=1": the registered path and query "/cb?q=1" with another character in the place of the "?" (no query) - a string that a
 \* registered URI would match if it were read as a pattern
-Paths   == IF Tier = "quick" THEN {"/cb", "/cb/x", "/other", "/cb_q=1"} ELSE {"/cb", "/cb/", "/cb/x", "/other", "/cb_q=1"}
+\* "/cb/x/y": one more segment below "/cb/x" - what "/cb/*" does not reach ('*' stops at '/')
+Paths   == IF Tier = "quick" THEN {"/cb", "/cb/x", "/cb/x/y", "/other", "/cb_q=1"} ELSE {"/cb", "/cb/", "/cb/x", "/cb/x/y", "/other", "/cb_q=1"}
 Queries == IF Tier = "quick" THEN {"", "q=1"} ELSE {"", "q=1", "q=2"}
 UIs     == {"", "u"}
 Frags   == {"", "f"}
@@ -39,9 +40,10 @@ R5 == U("app", "", "reg", "", "/cb", "", "")
 
 URISets == {<<R1>>, <<R2>>, <<R3>>, <<R4>>, <<R5>>, <<R1, R3>>, <<R2, R4>>, <<R3, R5>>}
 
-\* globs: "G1" = https://*.client.example/cb ; "G2" = https://client.example/** ; "G3" = http://localhost:*/cb
+\* globs: "G1" = https://*.client.example/cb ; "G2" = https://client.example/** ; "G3" = http://localhost:*/cb ;
+\* "G4" = https://client.example/cb/* (a single trailing star: one more path segment - with whatever query / fragment - and no deeper)
 GlobCfgs == {[globs |-> <<>>, optIn |-> FALSE], [globs |-> <<"G1">>, optIn |-> TRUE], [globs |-> <<"G2">>, optIn |-> TRUE],
-             [globs |-> <<"G3">>, optIn |-> TRUE], [globs |-> <<"G2">>, optIn |-> FALSE],
+             [globs |-> <<"G3">>, optIn |-> TRUE], [globs |-> <<"G2">>, optIn |-> FALSE], [globs |-> <<"G4">>, optIn |-> TRUE],
              \* "Gbad" = a malformed pattern ("https://client.example/[") the client opted into: it matches nothing
              [globs |-> <<"Gbad">>, optIn |-> TRUE]}
 
@@ -62,12 +64,14 @@ GlobMatch(g, u) ==
   CASE g = "G1" -> u.scheme = "https" /\ u.host = "sub.reg" /\ u.port = "" /\ u.path = "/cb" /\ u.query = "" /\ u.frag = ""
     [] g = "G2" -> u.scheme = "https" /\ u.ui = "" /\ u.host = "reg" /\ u.port = ""
     [] g = "G3" -> u.scheme = "http" /\ u.ui = "" /\ u.host = "localhost" /\ u.port # "" /\ u.path = "/cb" /\ u.query = "" /\ u.frag = ""
+    [] g = "G4" -> u.scheme = "https" /\ u.ui = "" /\ u.host = "reg" /\ u.port = "" /\ u.path \in {"/cb/x", "/cb/"}
     [] OTHER -> FALSE
 
 GlobInstance(g) ==
   CASE g = "G1" -> U("https", "", "sub.reg", "", "/cb", "", "")
     [] g = "Gbad" -> U("https", "", "reg", "", "/other", "", "")
     [] g = "G2" -> U("https", "", "reg", "", "/cb/x", "", "")
+    [] g = "G4" -> U("https", "", "reg", "", "/cb/x", "", "")
     [] OTHER    -> U("http", "", "localhost", "p2", "/cb", "", "")
 
 (* ---- the property sentence ---- *)
